@@ -5,7 +5,7 @@ package mqttproxy
 // Stand-alone reproductions of the two genuine C14 findings, end to end through a real Broker
 // (OS-chosen port) and raw MQTT packets. They are NOT part of the check (no run regexp of
 // spec.json matches TestVerifRepro…); run them by hand:
-//   bin/check C14 --build-only && (cd /verif/build/C14 && ./C14-*.test -test.run 'TestVerifReproC14' -test.v)
+//   bin/check C14 --build-only && (cd /verif/build/C14 && $(ls -t ./C14-*.test | head -1) -test.run 'TestVerifReproC14' -test.v)
 // Each test FAILS while the defect is present and passes once it is repaired.
 
 import (
